@@ -175,11 +175,16 @@ impl AstGen {
 
     /// `count` generated statements: every Statement variant in turn, random budgets
     pub fn statements(&self, count: usize, seed: u64, errs: &mut Vec<String>) -> Vec<sqlparser::ast::Statement> {
-        let mut rng = Rng(seed ^ 0xA57);
         let id = self.root_statement;
         let nv = self.n_variants(id);
         let mut out = vec![];
         for k in 0..count {
+            // one PRNG stream per (variant NAME, round): adding, removing or reordering Statement
+            // variants leaves the statements generated for the other variants unchanged
+            let vname = self.types[id]["variants"][k % nv]["name"].as_str().unwrap_or("");
+            let mut h: u64 = 0xcbf29ce484222325;
+            for b in vname.bytes() { h = (h ^ b as u64).wrapping_mul(0x100000001b3); }
+            let mut rng = Rng(seed ^ 0xA57 ^ h ^ ((k / nv) as u64).wrapping_mul(0x9E3779B97F4A7C15));
             let budget = self.need[id] + 1 + rng.below(4) as u32;
             let doc = self.gen_variant(id, k % nv, budget, &mut rng);
             match crate::common::guard(|| serde_json::from_value::<sqlparser::ast::Statement>(doc.clone())) {
